@@ -130,18 +130,20 @@ def replay_isolation(p):
     ob = p.get('obligation', '')
     a_ = p['args']
     osn, csn = ('S1', 'S2'), ('S1', 'S2')
+    same_id = False
     if 'shared_origin' in ob:
         n1, n2, order, explicit2 = a_[:4]
         osn = ('S', 'S') if a_[4] else (None, None)
         csn = (None, None) if a_[5] else ('S1', 'S2')
+        same_id = bool(a_[6]) if len(a_) > 6 else False
     elif 'shared' in ob:
         n1, n2, order, explicit2 = a_[0], a_[0], a_[1], False
     else:
         n1, n2, order, explicit2 = a_[:4]
     NAMES = [None, 'A', 'B']
     df = DLISFile()
-    lf1 = df.add_logical_file(fh_id='LF1')
-    lf2 = df.add_logical_file(fh_id='LF2', fh_sequence_number=2)
+    lf1 = df.add_logical_file(fh_id='LF' if same_id else 'LF1')
+    lf2 = df.add_logical_file(fh_id='LF' if same_id else 'LF2', fh_sequence_number=2)
     steps = {
         'o1': lambda: lf1.add_origin('O1', file_set_number=1, creation_time='2020/01/01 00:00:00', set_name=osn[0]),
         'o2': lambda: lf2.add_origin('O2', file_set_number=1, creation_time='2020/01/01 00:00:00', set_name=osn[1],
@@ -168,7 +170,7 @@ def replay_isolation(p):
             bad = f'{len(r["logical_files"])} logical files in the output'
         for i, lfv in enumerate(r['logical_files'][:2]):
             hid = strict.attr_of(lfv.header.objects[0][1], 'ID').value[0].strip()
-            if hid != ['LF1', 'LF2'][i]:
+            if hid != (['LF', 'LF'] if same_id else ['LF1', 'LF2'])[i]:
                 bad = bad or f'logical file {i} opens with header {hid!r}'
             errs, ids = strict.check_logical_file(lfv)
             bad = bad or '; '.join(errs[:2])
